@@ -34,7 +34,7 @@
 EXTENDS Integers, Sequences, FiniteSets, TLC
 
 CONSTANTS
-    Bases,        \* subset of {"single", "twofile", "twopkg", "empty"}: the base bundles Init chooses from
+    Bases,        \* subset of {"single", "svc", "twofile", "twopkg", "twopkgfile", "proto", "onefile", "empty"}: base bundles (see Base)
     MaxSteps,     \* number of Add* steps after the base
     MaxFocus,     \* number of non-minimal constructs per program
     Focused,      \* TRUE: steps stay at or below the node touched by the first step
@@ -345,10 +345,8 @@ FieldChoices(b, c, n) ==
         nm == FieldNames[n + 1]
         scal == UNION { { [e |-> Field(nm, WithCard(Scalar(s), cd), pr[1], pr[2]), rich |-> 1, label |-> s \o "/" \o cd \o PresLabel(pr)]
                           : s \in (IF full THEN ScalarKinds ELSE LiteScalars),
-                            \* `!` on a map makes the real compiler panic (reported for C07): kept in the focused space, where it is one
-                            \* rejected case per kind, but not in random deep programs, which it would make unusable
-                            pr \in { x \in Presences : (cd = "single" \/ x \in {<<"none", "mark">>, <<"req", "mark">>}) /\ (full \/ x[2] = "mark")
-                                                       /\ (Focused \/ ~(cd = "map" /\ x[1] = "req")) } }
+                            \* (`!` on a map used to panic the real compiler; fixed in /repo by commit ce0acd9)
+                            pr \in { x \in Presences : (cd = "single" \/ x \in {<<"none", "mark">>, <<"req", "mark">>}) /\ (full \/ x[2] = "mark") } }
                         : cd \in Cards }
         inl == UNION { { [e |-> Field(nm, WithCard(it[1], cd), pr[1], pr[2]), rich |-> 1, label |-> it[2] \o "/" \o cd \o PresLabel(pr)]
                          : it \in InlineTypes(full),
@@ -524,9 +522,26 @@ SInit ==
     /\ bundle \in { Base(x) : x \in Bases }
     /\ steps = 0 /\ rich = 0 /\ cur = <<>> /\ started = FALSE /\ hist = <<>> /\ focus = ""
 
+\* The named actions of the language (each is Step restricted to one kind of container / element)
+StepIn(ctxs, kinds) ==
+    \E c \in Containers(bundle) : c.ctx \in ctxs /\ \E ch \in Choices(bundle, c) : (IF kinds = {} THEN TRUE ELSE ch.e.kind \in kinds) /\ Step(c, ch)
+AddField    == StepIn({"object", "nested", "inline-object", "request", "response", "topicmsg"}, {})
+AddOption   == StepIn({"oneof", "inline-oneof", "enum", "inline-enum"}, {})       \* oneof option / enum option
+AddObject   == StepIn({"file"}, {"object"})
+AddOneof    == StepIn({"file"}, {"oneof"})
+AddEnum     == StepIn({"file"}, {"enum"})
+AddService  == StepIn({"file"}, {"service"})
+AddTopic    == StepIn({"file"}, {"topic"})
+Nest        == StepIn({"nest"}, {})
+AddMethod   == StepIn({"service"}, {})
+AddMessage  == StepIn({"topic"}, {})
+AddFile     == StepIn({"pkg"}, {})
+AddPackage  == StepIn({"root"}, {})
+AddImport   == \E c \in ImportContainers(bundle) : \E ch \in ImportChoices(bundle, c) : Step(c, ch)
+
 SNext ==
-    \/ \E c \in Containers(bundle) : \E ch \in Choices(bundle, c) : Step(c, ch)
-    \/ \E c \in ImportContainers(bundle) : \E ch \in ImportChoices(bundle, c) : Step(c, ch)
+    \/ AddField \/ AddOption \/ AddObject \/ AddOneof \/ AddEnum \/ AddService \/ AddTopic \/ Nest
+    \/ AddMethod \/ AddMessage \/ AddImport \/ AddFile \/ AddPackage
 
 svars == <<bundle, steps, rich, cur, started, hist, focus>>
 =============================================================================
